@@ -83,7 +83,14 @@ Event(rec) ==
 TraceNext ==
     /\ l <= Len(Log)
     /\ l' = l + 1
-    /\ LET rec == Log[l] IN IF rec.ev = "init" THEN Reset(rec) ELSE Event(rec)
+    /\ LET rec == Log[l] IN
+         IF rec.ev = "init" THEN Reset(rec)
+         ELSE IF rec.ev = "twinfail"
+              \* the never-stopped node itself could not process the history (BeginBlock / EndBlock halted): with an upgrade planned that is the upgrade
+              \* block not running to completion (C19), otherwise a block halted by state that transactions left behind (C17)
+              THEN /\ UNCHANGED <<vars, twin, cur>> /\ run' = rec.run
+                   /\ PrintT(<<"VIOLATION", IF rec.upgradeAt # 0 THEN "C19" ELSE "C17", rec.run, 0, l>>)
+              ELSE Event(rec)
 
 TraceSpec == TraceInit /\ [][TraceNext]_tvars
 
